@@ -5,6 +5,7 @@ package main
 // permission changes) and the C13 clause "every request is answered", evaluated on every transition.
 
 import (
+	"github.com/tinode/chat/server/zzverif/vsched"
 	"errors"
 	"fmt"
 	"strings"
@@ -239,6 +240,7 @@ func vfAclExec(alphabet []vfAclOp) func(hist []int, last bool) vfXResult {
 			if vfXFault.K > 0 {
 				t.w.db.FailAt(vfXFault.K, vfErrInjectedStore)
 			}
+			tp0 := vfTopic(t.grp) // the loaded instance the request is addressed to (nil: not loaded)
 			code, frames := t.aclApply(op)
 			t.w.db.ClearFaults()
 			post := t.snap()
@@ -299,6 +301,26 @@ func vfAclExec(alphabet []vfAclOp) func(hist []int, last bool) vfXResult {
 								What:   fmt.Sprintf("%s: store call #%d (%s) failed (reply %d); afterwards %s, whose stored permissions are %s/%s, publishes and is answered %d", op, vfXFault.K, failed, code, un, ss.Want, ss.Given, c2),
 								Detail: map[string]any{"op": op.String(), "failing_call": failed}})
 						}
+					}
+				}
+				// C14 after a failed request: a session which disconnects now still ends up detached from the
+				// topic, with its user's online count restored
+				if post.alive() && code >= 400 && tp0 != nil {
+					for i, u := range t.users {
+						un := t.uname(u.uid)
+						if i == 0 || i >= len(t.cl) || t.cl[i].sess == nil || t.cl[i].sess.getSub(t.grp) == nil {
+							continue
+						}
+						gone := t.cl[i].sess
+						t.cl[i].Disconnect()
+						vsched.Quiesce()
+						_, listed := tp0.sessions[gone]
+						if pud := tp0.perUser[u.uid]; listed || pud.online != 0 {
+							res.Violations = append(res.Violations, vfXViolation{Key: "C14:terminated-session-still-attached:after-failed-request:" + kind + "@" + failed,
+								What:   fmt.Sprintf("%s: store call #%d (%s) failed (reply %d); %s's session then disconnected: the topic still lists it = %v, online count %d", op, vfXFault.K, failed, code, un, listed, pud.online),
+								Detail: map[string]any{"op": op.String(), "failing_call": failed}})
+						}
+						break
 					}
 				}
 				// the single-owner and authorisation rules hold under store failures too
@@ -635,5 +657,6 @@ func TestVerifC10Acl(t *testing.T) { vfXSearch(t, "C10", "acl", vfAclModelName()
 func TestVerifC10P2P(t *testing.T) { vfXSearch(t, "C10", "p2p", vfP2PModelName()) }
 func TestVerifC08AclFault(t *testing.T) { vfXSearch(t, "C08", "acl-fault", vfAclModelName()+"-fault") }
 func TestVerifC06AclFault(t *testing.T) { vfXSearch(t, "C06", "acl-fault", vfAclModelName()+"-fault") }
+func TestVerifC14AclFault(t *testing.T) { vfXSearch(t, "C14", "acl-fault", vfAclModelName()+"-fault") }
 func TestVerifC03AclFault(t *testing.T) { vfXSearch(t, "C03", "acl-fault", vfAclModelName()+"-fault") }
 func TestVerifC13AclFault(t *testing.T) { vfXSearch(t, "C13", "acl-fault", vfAclModelName()+"-fault") }
